@@ -20,7 +20,7 @@ RULE = (
     "non-trivial = repeated single-agent measurements / unequal chains / >=2 samples present"
 )
 ASSUMPTIONS = ["correlation cases whose centred prediction row is (nearly) identically zero (length below 1e-13: 0/0 diagonal) are detected and skipped; for near-replicate samples (lengths 1e-13 .. 1e-9) the tolerance on the entries grows with 2e-14 / length, the diagonal stays at 1e-9"]
-REQUIRED = {"correlation_cases_with_permuted_supplied_mappings": {"quick": 40, "thorough": 800}, "correlation_cases_near_replicate_samples": {"quick": 10, "thorough": 250}, "synergy_cases_with_integer_observations": {"quick": 60, "thorough": 1500}, "analysis_cli_runs": {"quick": 8, "thorough": 80}, "evaluation_cases": {"quick": 300, "thorough": 8000}, "single_effect_cases": {"quick": 300, "thorough": 8000}, "single_effect_cases_with_sparse_ids": {"quick": 80, "thorough": 2000}, "synergy_cases": {"quick": 300, "thorough": 8000}, "correlation_cases": {"quick": 60, "thorough": 1500}, "combinatoric_space_cases": {"quick": 100, "thorough": 2500}}
+REQUIRED = {"single_effect_cases_with_ids_of_another_integer_width": {"quick": 40, "thorough": 1000}, "correlation_cases_with_permuted_supplied_mappings": {"quick": 40, "thorough": 800}, "correlation_cases_near_replicate_samples": {"quick": 10, "thorough": 250}, "synergy_cases_with_integer_observations": {"quick": 60, "thorough": 1500}, "analysis_cli_runs": {"quick": 8, "thorough": 80}, "evaluation_cases": {"quick": 300, "thorough": 8000}, "single_effect_cases": {"quick": 300, "thorough": 8000}, "single_effect_cases_with_sparse_ids": {"quick": 80, "thorough": 2000}, "synergy_cases": {"quick": 300, "thorough": 8000}, "correlation_cases": {"quick": 60, "thorough": 1500}, "combinatoric_space_cases": {"quick": 100, "thorough": 2500}}
 N_CASES = {"quick": 1920, "thorough": 24000}
 
 
@@ -142,6 +142,18 @@ def run_shard(rec, tier, seed, shard, nshards):
                 tids = np.where(tids == -1, -1, tmap[np.clip(tids, 0, nT - 1)])
                 sids = smap[sids]
                 rec.count("single_effect_cases_with_sparse_ids")
+            if rng.random() < 0.2:
+                # ids of another integer width than the library's own int64: int32 from a file, unsigned 64-bit sample
+                # ids made by hashing names (beyond 2**53), small unsigned sample ids
+                how_ = int(rng.integers(3))
+                if how_ == 0:
+                    sids, tids = sids.astype(np.int32), tids.astype(np.int32)
+                elif how_ == 1:
+                    big = np.array([int(x) for x in rng.integers(2**62, 2**63, size=int(sids.max()) + 1, dtype=np.int64)], dtype=np.uint64) * np.uint64(2) + np.uint64(1)
+                    sids = big[sids.astype(np.int64)]
+                else:
+                    sids = sids.astype(np.uint8)
+                rec.count("single_effect_cases_with_ids_of_another_integer_width")
             ob = rng.random(n)
             if rng.random() < 0.3:
                 for i in range(n):
